@@ -25,11 +25,15 @@ Local Open Scope nat_scope.
 
 Inductive evt := CE | IE.          (* connected_event, input_event *)
 
-(* which source text is modelled: the pinned tree has final_wakes_input = false;
-   `true` is the one-line repair "__disconnect_final also does input_event.set()" *)
-Record variant := mkVariant { final_wakes_input : bool }.
-Definition pinned := mkVariant false.
-Definition repaired := mkVariant true.
+(* which source text is modelled.  The pinned tree is `pinned`.
+   final_wakes_input    : __disconnect_final also does input_event.set()          (repairs 7.1-g)
+   recheck_before_raise : receive() re-tests input_buffer (`if self.input_buffer: break`)
+                          before it raises TimeoutError out of the connected wait and before it
+                          raises DisconnectedError                                 (repairs 7.1-j) *)
+Record variant := mkVariant { final_wakes_input : bool; recheck_before_raise : bool }.
+Definition pinned := mkVariant false false.
+Definition repaired := mkVariant true false.
+Definition repaired_all := mkVariant true true.
 
 (* one invocation made by the wrapped Client on the producer side *)
 Inductive hop :=
@@ -50,6 +54,8 @@ Inductive cpc :=
 | RIW (ph : wphase)     (* self.input_event.wait(timeout) *)
 | RClear                (* self.input_event.clear() *)
 | RPop                  (* return self.input_buffer.pop(0) *)
+| RCkT                  (* (recheck variant) connected wait timed out: if self.input_buffer: break *)
+| RCkD                  (* (recheck variant) connected is False:       if self.input_buffer: break *)
 | EW (ph : wphase)      (* emit: self.connected_event.wait() *)
 | ERead                 (* emit: if not self.connected: raise DisconnectedError *)
 | ESend                 (* emit: self.client.emit(...) / except SocketIOError: pass *)
@@ -106,7 +112,7 @@ Definition finish (c : cfg) (s : st) (o : out) : cfg :=
   mkCfg (add_out s o) (start_pc (tl (cscript c))) (tl (cscript c)) (prods c).
 
 (* ---- the consumer: one step per access, as in receive() / emit() ---- *)
-Definition cstep (c : cfg) : option (cfg * list lbl) :=
+Definition cstep (v : variant) (c : cfg) : option (cfg * list lbl) :=
   let s := sh c in
   match pc c with
   | RTest => match buf s with
@@ -118,7 +124,16 @@ Definition cstep (c : cfg) : option (cfg * list lbl) :=
   | RCW WBlocked => None
   | RCW WNotified => Some (goto c RCRead, [LWake CE])
   | RCRead => if conn s then Some (goto c (RIW WEnter), [LConnRead true])
+              else if recheck_before_raise v then Some (goto c RCkD, [LConnRead false])
               else Some (finish c s (Raised DisconnectedError), [LConnRead false; LRaise DisconnectedError])
+  | RCkT => match buf s with
+            | [] => Some (finish c s (Raised TimeoutError), [LBufTest false; LRaise TimeoutError])
+            | _ :: _ => Some (goto c RPop, [LBufTest true])
+            end
+  | RCkD => match buf s with
+            | [] => Some (finish c s (Raised DisconnectedError), [LBufTest false; LRaise DisconnectedError])
+            | _ :: _ => Some (goto c RPop, [LBufTest true])
+            end
   | RIW WEnter => if iev s then Some (goto c RClear, [LWaitEnter IE true])
                   else Some (goto c (RIW WBlocked), [LWaitEnter IE false])
   | RIW WBlocked => None
@@ -140,10 +155,11 @@ Definition cstep (c : cfg) : option (cfg * list lbl) :=
   end.
 
 (* ---- the timer: fires the timeout of the wait the consumer is registered in ---- *)
-Definition tstep (c : cfg) : option (cfg * list lbl) :=
+Definition tstep (v : variant) (c : cfg) : option (cfg * list lbl) :=
   if cur_timeout c then
     match pc c with
-    | RCW WBlocked => Some (finish c (sh c) (Raised TimeoutError), [LTimeout CE; LRaise TimeoutError])
+    | RCW WBlocked => if recheck_before_raise v then Some (goto c RCkT, [LTimeout CE])
+                      else Some (finish c (sh c) (Raised TimeoutError), [LTimeout CE; LRaise TimeoutError])
     | RIW WBlocked => Some (finish c (sh c) (Raised TimeoutError), [LTimeout IE; LRaise TimeoutError])
     | _ => None
     end
@@ -188,17 +204,17 @@ Definition pstep (v : variant) (c : cfg) (i : nat) : option (cfg * list lbl) :=
 
 (* ---- schedules: 0 = consumer, 1 = timer, 2+i = producer i; a disabled choice is a no-op ---- *)
 Definition micro (v : variant) (c : cfg) (ch : nat) : option (cfg * list lbl) :=
-  match ch with 0 => cstep c | 1 => tstep c | S (S i) => pstep v c i end.
+  match ch with 0 => cstep v c | 1 => tstep v c | S (S i) => pstep v c i end.
 
 (* asyncio granularity: the consumer runs until it suspends (registered in a wait) or its call
    is over; a handler invocation is not interrupted *)
-Fixpoint citer (fuel : nat) (c : cfg) (acc : list lbl) : cfg * list lbl :=
+Fixpoint citer (v : variant) (fuel : nat) (c : cfg) (acc : list lbl) : cfg * list lbl :=
   match fuel with
   | 0 => (c, acc)
-  | S f => match cstep c with
+  | S f => match cstep v c with
            | None => (c, acc)
            | Some (c', l) => if List.length (cscript c') <? List.length (cscript c) then (c', acc ++ l)
-                             else citer f c' (acc ++ l)
+                             else citer v f c' (acc ++ l)
            end
   end.
 Fixpoint piter (v : variant) (fuel : nat) (c : cfg) (i : nat) (acc : list lbl) : cfg * list lbl :=
@@ -217,8 +233,12 @@ Definition cfuel := 24.
 Definition step (v : variant) (atomic : bool) (c : cfg) (ch : nat) : cfg * list lbl :=
   if atomic then
     match ch with
-    | 0 => citer cfuel c []
-    | 1 => match tstep c with Some r => r | None => (c, []) end
+    | 0 => citer v cfuel c []
+    | 1 => match tstep v c with      (* the woken task runs on until it suspends or its call is over *)
+           | Some (c', l) => if List.length (cscript c') <? List.length (cscript c) then (c', l)
+                             else citer v cfuel c' l
+           | None => (c, [])
+           end
     | S (S i) => piter v 4 c i []
     end
   else match micro v c ch with Some r => r | None => (c, []) end.
